@@ -282,6 +282,23 @@ func main() {
 		open := c.Bool()
 		checkOne(c, half, path(c, 3), open)
 	})
+	// boxes on a 1/16 grid (exact in float64 and in the rational reference): no lattice vertex lies on an edge,
+	// no lattice segment passes through a corner, every crossing parameter is a non-trivial fraction; one box
+	// taller than wide, one wider than tall
+	sixteenth := []orb.Bound{
+		{Min: orb.Point{2.3125, 1.6875}, Max: orb.Point{4.4375, 4.5625}},
+		{Min: orb.Point{2.8125, 0.4375}, Max: orb.Point{3.5625, 5.6875}},
+		{Min: orb.Point{0.4375, 2.8125}, Max: orb.Point{5.6875, 3.4375}},
+	}
+	for _, b := range sixteenth {
+		tables[b] = tableFor(b)
+	}
+	nSix := ev.Pick(r, 3, 4)
+	r.Explore("sixteenth-boxes", fmt.Sprintf("3 general-position boxes with corners on the 1/16 grid (square-ish, tall, wide) x every path of 0..%d vertices, closed and open", nSix), mc.Opts{MaxDev: -1, Split: 3}, func(c *mc.Ctx) {
+		b := sixteenth[c.Choose(len(sixteenth))]
+		open := c.Bool()
+		checkOne(c, b, path(c, nSix), open)
+	})
 	// MultiLineString and the generic entry point agree with LineString
 	r.Explore("multi-and-generic", "pairs of 2..3-vertex paths through clip.MultiLineString and clip.Geometry", mc.Opts{MaxDev: -1, Split: 3}, func(c *mc.Ctx) {
 		open := c.Bool()
